@@ -268,6 +268,8 @@ func TestC16Wire(t *testing.T) {
 		}
 		legacy := rapid.Bool().Draw(rt, "legacy")
 		bits2 := genAccess(rt, "bits2").Defined()
+		bits3 := genAccess(rt, "bits3").Defined()
+		shadow := rapid.SampledFrom([]string{"", "./", "../", "/", "x/../"}).Draw(rt, "shadowSpelling")
 		inWorld(rt, hlsim.Options{Accounts: []hlsim.AccountSpec{acct("seed", "Seed", "x", allAccess)}, Agreement: "a"}, func(rt *rapid.T, w *hlsim.World) {
 			var data []byte
 			if legacy {
@@ -309,12 +311,33 @@ func TestC16Wire(t *testing.T) {
 			if !bytes.Equal(got, bits2[:]) {
 				rt.Fatalf("after an administrator changed the privileges of the logged-in user from %x to %x the client was sent %x", bits[:], bits2[:], got)
 			}
+			// ... and the account file says the same, under the privilege names - also after a creation request whose login
+			// is another spelling of this account's file name ("./u") with other privileges, whatever the server answers to it
+			if shadow != "" {
+				admin.Request(hlref.TranNewUser, fld(hlref.FUserLogin, hlref.Obfuscate([]byte(shadow+"u"))), sfld(hlref.FUserName, "S"), fld(hlref.FUserPassword, hlref.Obfuscate([]byte("spw"))), fld(hlref.FUserAccess, bits3[:]))
+			}
+			fb, err := os.ReadFile(filepath.Join(w.UsersDir, "u.yaml"))
+			if err != nil {
+				rt.Fatalf("account file of u: %v", err)
+			}
+			var generic struct {
+				Login  string         `yaml:"Login"`
+				Access map[string]any `yaml:"Access"`
+			}
+			if err := yaml.Unmarshal(fb, &generic); err != nil {
+				rt.Fatalf("account file of u does not parse: %v", err)
+			}
+			for i, name := range hlref.PrivilegeNames {
+				if v, _ := generic.Access[name].(bool); v != bits2.Has(i) {
+					rt.Fatalf("account u holds privileges %x in memory and on the wire, but its file u.yaml (Login %q) says %s=%v (privilege %d; creation request with login %q and privileges %x was sent: %v)", bits2[:], generic.Login, name, v, i, shadow+"u", bits3[:], shadow != "")
+				}
+			}
 		})
 		lab := "named"
 		if legacy {
 			lab = "legacy"
 		}
-		ev.Case(evid.Hash(bits[:], legacy, bits2[:]), len(definedSet(bits)) > 0, "wire:"+lab)
+		ev.Case(evid.Hash(bits[:], legacy, bits2[:], bits3[:], shadow), len(definedSet(bits)) > 0, "wire:"+lab)
 	})
 }
 
